@@ -11,6 +11,7 @@ import (
 	"github.com/cnotch/xlog"
 
 	"ipchubverif/hx"
+	"ipchubverif/players"
 	"ipchubverif/report"
 	"ipchubverif/runner"
 	"ipchubverif/vrt"
@@ -188,7 +189,7 @@ func scenarios(thorough bool) []runner.Scenario {
 func main() {
 	xlog.ReplaceGlobal(xlog.New(xlog.NewNopCore()))
 	if runner.IsWorker() {
-		runner.RunWorker(append(append(scenarios(false), scenarios(true)...), append(adapterScenarios(false), adapterScenarios(true)...)...))
+		runner.RunWorker(append(append(scenarios(false), scenarios(true)...), append(players.FanoutScenarios(false), players.FanoutScenarios(true)...)...))
 	}
 	rep := report.New("C01", "exploration")
 	rep.Rule = "(a) every schedule within the deviation bound (preemptions + non-default successor choices) of publisher / joiner (attach, detach) / delivery goroutines on the real media layer, also with statement-level points in the media files; (b) transport adapters end to end: a real publisher session pushes interleaved frames on all four channels while players of every transport (RTSP/TCP, RTSP/UDP and two multicast members over a logging fake UDP socket, ws-rtsp, WSP, HTTP-FLV, WebSocket-FLV) attach and detach through their own real sessions/handlers; every operation sequence of the given length with at most E attach/detach events is enumerated (environment choices), leaving by TEARDOWN and by disconnect; each player must have received exactly the packets published while it was attached (FLV players: exactly the tags a plain FLV consumer attached over the same interval received); distinct = distinct (scenario, outcome) pairs"
@@ -197,6 +198,6 @@ func main() {
 	if rep.Thorough() {
 		runner.FineP = 2
 	}
-	runner.Run(rep, append(scenarios(rep.Thorough()), adapterScenarios(rep.Thorough())...))
+	runner.Run(rep, append(scenarios(rep.Thorough()), players.FanoutScenarios(rep.Thorough())...))
 	rep.Finish()
 }
